@@ -12,11 +12,11 @@ EXTENDS GQLGrammarSDL
 L == INSTANCE GQLLiteral
 
 \* code points used to build raw contents: " \ space LF a  (+ n for the ordinary escapes \n, \\, \")
-BlockAlphabet == {34, 92, 32, 10, 97}
+BlockAlphabet == {34, 92, 32, 10, 13, 97}      \* incl. CR: LF, CR and CR LF are the line terminators of BlockStringValue()
 OrdAlphabet == {34, 92, 32, 97, 110}
 LitLen == IF Rich THEN 5 ELSE IF Tiny THEN 3 ELSE 4
 OrdLen == 3
-Chr(c) == CASE c = 34 -> "\"" [] c = 92 -> "\\" [] c = 32 -> " " [] c = 10 -> "\n" [] c = 97 -> "a" [] c = 110 -> "n" [] c = 9 -> "\t"
+Chr(c) == CASE c = 34 -> "\"" [] c = 92 -> "\\" [] c = 32 -> " " [] c = 10 -> "\n" [] c = 13 -> "\r" [] c = 97 -> "a" [] c = 110 -> "n" [] c = 9 -> "\t"
 RECURSIVE Str(_)
 Str(r) == IF Len(r) = 0 THEN "" ELSE Chr(r[1]) \o Str(Tail(r))
 SeqsUpTo(A, n) == UNION {[1..k -> A] : k \in 0..n}
